@@ -233,6 +233,8 @@ def gen_call(rng):
         import calendar
         opts["default"][2] = min(opts["default"][2], calendar.monthrange(
             opts["default"][0], opts["default"][1])[1])
+        if rng.random() < 0.15:
+            opts["default_aware"] = True
     via = rng.choice(["module", "module", "parser0", "parser1"])
     return ["parse", via, inp, opts]
 
@@ -624,6 +626,10 @@ class Env(object):
                 kw[k] = make_tzinfos(v)
             elif k == "default":
                 kw[k] = datetime.datetime(*v)
+                if opts.get("default_aware"):
+                    kw[k] = kw[k].replace(tzinfo=_Brst())
+            elif k == "default_aware":
+                pass
             else:
                 kw[k] = v
         x = make_input(inp, self.ctx)
